@@ -96,7 +96,9 @@ class Ctx:
                     raise Machinery("vacuity: action %s of %s was never taken (coverage %s)" %
                                     (a, label, r.coverage))
         else:
-            if r.violated != expect:
+            # a negative instance's cfg lists exactly ONE invariant / property: with several, which one 16 workers report
+            # first is a race (vp run #12: MC_FixedSizeRefines_neg reported AbsInv instead of ExitAgrees under load)
+            if r.violated not in str(expect).split("|"):
                 raise Machinery("negative instance %s lost its sensitivity: expected %s, TLC reported %s\n%s"
                                 % (label, expect, r.violated, r.stdout[-1500:]))
         return r
